@@ -148,3 +148,33 @@ func vH_C03_junk() {
 	}
 	vCover("done")
 }
+
+// ROOT-ACCEPT kernel: a fully symbolic candidate root record (only the JSON
+// "{}" is concrete) after k bytes of junk.  NewStore must accept it exactly
+// when the independent decoder says it is a complete, self-consistent root
+// record ending at the end of the file.
+func vH_C03_accept() {
+	k := vChoose("junk-before", 0, vParam("junkmax"))
+	img := &vFile{}
+	img.data = append(img.data, vBytes("pre", k)...)
+	rec := vBytes("rec", 46)
+	rec[20], rec[21] = '{', '}'
+	img.data = append(img.data, rec...)
+	end := int64(len(img.data))
+	s, err := NewStore(img)
+	dec := vDecode(img.data, end)
+	if err == nil {
+		vAssert("accepted-store-nonnil", s != nil)
+		if s != nil && s.getSize() == end {
+			// the store settled on a root record ending at the end of the file
+			vAssert("accepted-a-record-that-is-not-a-valid-root", dec.ok)
+			vCover("accepted")
+		} else {
+			vCover("accepted-earlier")
+		}
+	} else {
+		vAssert("rejected-a-valid-root-record", !dec.ok)
+		vCover("rejected")
+	}
+	vCover("done")
+}
